@@ -55,7 +55,7 @@ func (t Time) Sub(u Time) Duration {
 		}
 	}
 	if t.virtual || u.virtual {
-		if _, expired := sched.Controlled(); expired {
+		if _, reached := sched.DeadlineReached(); reached {
 			return Duration(1<<63 - 1)
 		}
 		return 0
